@@ -193,6 +193,9 @@ func c10Intruder(t *rapid.T) C10Triple {
 		`BEGIN { b = true; b.k++; z = null; z.k = 1 }`,
 		`BEGIN { r = /a/; r.x = 2; r[0]++ }`,
 		`{ $.name[10] = 9; $.name[12]++ }`,
+		// sorting decides between numeric and textual order per call, not per process
+		`BEGIN { print ["b", 10, "9", 1].sort(), [true, "x", 2].sort() }`,
+		`BEGIN { print [10, 9, 100, 1].sort(), [20, 3, 2.5].sort(); print ["b", 10].sort(); print [10, 9, 100, 1].sort() }`,
 		// values with several members that JSON cannot express: which one is reported?
 		`BEGIN { o = {a: /x/}; o.b = o; print json(o) }`,
 		`BEGIN { o = {k1: 1, k2: /x/, k3: 2}; o.k0 = o; o.k9 = [o]; print "before"; print json(o) }`,
